@@ -23,7 +23,7 @@ InitC ==
   /\ info = <<[ZeroInfo EXCEPT !.nb = 1, !.sz = Sz(B) + HDR, !.hf = H(B), !.hl = H(B), !.tf = Time(B), !.tl = Time(B)]>>
   /\ idx = [b \in Blocks |-> [file |-> 0, dpos |-> HDR, upos |-> 0, data |-> TRUE, undo |-> FALSE]]
   /\ cur = [file |-> 0, uh |-> 0]
-  /\ rlen = <<-1>>
+  /\ rlen = <<-1>> /\ reidx = FALSE
   /\ \/ /\ scenario \in {"child_first", "reconsider"}
         /\ \/ fault = NoFault /\ spot = "-"
            \/ \E r \in BlkRegions \ {"tx"} : fault = FlipOf(r) /\ spot = "-"
